@@ -111,8 +111,12 @@ theorem mutateOne_ws (s : St) (how : Mut) (f : Nat) (hhow : ∀ off, how ≠ .co
 theorem mutate_wsound (s : St) (file : Option Nat) (how : Mut) (hhow : ∀ off, how ≠ .corrupt off)
     (h : WSound s) : WSound (mutate s file how) := by
   have h0 := mutate_sound0 s file how h.zero
-  refine ⟨h0.cfg, h0.bad, ?_⟩
-  rw [mutate_eq]
-  exact foldl_inv WS _ (fun t f ht => mutateOne_ws t how f hhow ht) _ _ h.ws
+  refine ⟨h0.cfg, h0.bad, ?_, ?_⟩
+  · rw [mutate_eq]
+    exact foldl_inv WS _ (fun t f ht => mutateOne_ws t how f hhow ht) _ _ h.ws
+  · intro i hi
+    rw [mutate_bf] at hi
+    rw [mutate_cfg]
+    exact h.pad i hi
 
 end Rain.Loop
